@@ -56,8 +56,19 @@ func genLoop(t *rapid.T, label string) *s2.Loop {
 }
 
 func genPolygon(t *rapid.T, label string) *s2.Polygon {
-	mode := rapid.IntRange(0, 11).Draw(t, label+".mode")
+	mode := rapid.IntRange(0, 12).Draw(t, label+".mode")
 	switch mode {
+	case 12:
+		// more than 12 loops: edge ids are then mapped to loops through the
+		// cumulative-edges table (Edge, ChainPosition) instead of a linear scan
+		n := rapid.IntRange(13, 18).Draw(t, label+".many")
+		var loops []*s2.Loop
+		for i := 0; i < n; i++ {
+			c := s2.PointFromLatLng(s2.LatLngFromDegrees(float64(i%3)*20-20, float64(i)*19))
+			k := rapid.SampledFrom([]int{3, 3, 4, 5}).Draw(t, fmt.Sprintf("%s.m%d", label, i))
+			loops = append(loops, s2.RegularLoop(c, 2*s1.Degree, k))
+		}
+		return s2.PolygonFromLoops(loops)
 	case 0:
 		return s2.PolygonFromLoops(nil)
 	case 1:
